@@ -230,8 +230,8 @@ def r3_failures_raise(run):
               nontrivial=False)
 
 
-def r4_same_gate(run):
-    run.rule("R4", "every decrypted assertion passes AuthnResponse._assertion "
+def r4_same_gate(run, rule="R4"):
+    run.rule(rule, "every decrypted assertion passes AuthnResponse._assertion "
              "and is adopted only on success; decryption-time signature checks "
              "as in C01.R5/R6")
     m = run.model
@@ -240,7 +240,7 @@ def r4_same_gate(run):
     org = Origins(cfg)
     apps = [(nd, c) for nd, c in cfg.call_nodes("append")
             if attr_chain(c.func) == "self.assertions.append"]
-    run.floor("R4", "self.assertions.append sites", len(apps), 2)
+    run.floor(rule, "self.assertions.append sites", len(apps), 2)
     for nd, c in apps:
         src = org.of(arg_of(c, 0), nd.id)
         from_dec = any(a.kind == "call" and a.text.endswith("decrypt_assertions")
@@ -250,7 +250,7 @@ def r4_same_gate(run):
             ok = any(isinstance(e, ast.Call) and call_name(e) == "_assertion"
                      and unparse(e.args[0]) == unparse(arg_of(c, 0)) and p
                      for e, p, _ in gs)
-            run.check(ok, "R4", fi.qual + "::decrypted-adopted-iff-checked",
+            run.check(ok, rule, fi.qual + "::decrypted-adopted-iff-checked",
                       "a decrypted assertion is appended only on the success "
                       "arm of self._assertion(it, ...)",
                       "a decrypted assertion is adopted without passing "
@@ -280,11 +280,11 @@ def r4_same_gate(run):
                            if cfg.nodes[b].kind == "true"]
                     ok_stop = all(nd.id not in cfg.reachable_from(b)
                                   for b in bad)
-                run.check(ok_stop, "R4", fi.qual + "::plain-falsy=>stop",
+                run.check(ok_stop, rule, fi.qual + "::plain-falsy=>stop",
                           "a falsy _assertion() result ends parse_assertion",
                           "a plain assertion that failed _assertion() is still "
                           "adopted", fi.loc(vc))
-            run.check(bool(loops) and wit is None, "R4",
+            run.check(bool(loops) and wit is None, rule,
                       fi.qual + "::plain-adopted-iff-checked",
                       "plain assertions are adopted only after the checking loop",
                       "a plain assertion is adopted without passing "
@@ -296,20 +296,22 @@ def r4_same_gate(run):
         excs = [x.id for x in dcfg.nodes if x.kind == "exc"]
         ok = result_reaches(dcfg, nd.id, c, [dcfg.return_exit], "F",
                             avoid=excs) is None
-        run.check(ok, "R4", da.qual + "::falsy-check=>raise",
+        run.check(ok, rule, da.qual + "::falsy-check=>raise",
                   "a falsy signature check result raises",
                   "a falsy check_signature result is ignored", da.loc(c))
-        run.check(unparse(arg_of(c, None, "origdoc")) == "decr_txt", "R4",
+        run.check(unparse(arg_of(c, None, "origdoc")) == "decr_txt", rule,
                   da.qual + "::origdoc", "verified against the decrypted text",
                   "origdoc=%s" % unparse(arg_of(c, None, "origdoc")), da.loc(c),
                   nontrivial=False)
     ee = [c for c in calls_named(da.node, "extension_elements_to_elements")]
     run.check(len(ee) == 1 and unparse(arg_of(ee[0], 0)) ==
-              "encrypted_assertion.extension_elements", "R4",
+              "encrypted_assertion.extension_elements", rule,
               da.qual + "::source", "assertions are taken only from the children "
               "of the (decrypted) EncryptedAssertion",
               "decrypted assertions are taken from %s" %
               [unparse(arg_of(c, 0)) for c in ee], da.loc())
+    if rule != "R4":
+        return      # (as C01.R10: C01 runs its own R5/R6)
     before = len(run.results)
     saved = dict(run.rules)
     c01.r5_present_implies_checked(run)
